@@ -9,6 +9,7 @@ from ..interp_prop import InterpProp
 
 class C15(InterpProp):
     id = 'C15'
+    anomaly_tags = ('macro', 'meta')
     # observables compared with the model (see InterpProp.normalize)
     cmp_eff = ('meta',)
     cmp_meta = ('event sent', 'delayed event sent')
@@ -55,6 +56,12 @@ class C15(InterpProp):
             nonlocal ncb
             i = rnd.randrange(n)
             if rnd.random() < 0.45:
+                if ncb and rnd.random() < 0.35:
+                    # a callable that is bound already (to this or to another interpreter): one more binding of it
+                    again = rnd.randrange(ncb)
+                    ops.append(['bindcb', i, again])
+                    listeners.append([len(listeners), i, 'cb', again, True])
+                    return
                 ops.append(['bindcb', i, ncb])
                 listeners.append([len(listeners), i, 'cb', ncb, True])
                 ncb += 1
@@ -98,7 +105,7 @@ class C15(InterpProp):
                 if rnd.random() < 0.3:
                     t += rnd.choice([1, 2])
                 ops.append(['exec', i, t])
-        payload = {'kind': 'interp', 'charts': [e.json for e in encs], 'ops': ops}
+        payload = {'kind': 'interp', 'charts': [e.json for e in encs], 'ops': ops, 'record_deliveries': True}
         return Case(payload, {'charts': charts}, model_ok=all(e.supported for e in encs) and not detacher)
 
     def shrink_candidates(self, case):
@@ -147,12 +154,14 @@ class C15(InterpProp):
                     announced = [m['data'][0][1] for m in oracles.meta_effects(r['eff']) if m['ev'] == 'event sent']
                     if announced != sent:
                         res.violations.append('op %d: internal events of the MacroStep %s differ from those announced %s' % (k, sent, announced))
+                order = []
                 for e in sent:
                     # each event goes to the listeners in binding order; a listener detached meanwhile gets nothing
                     for lid in sorted(bound):
                         o, kind, tgt, live = bound[lid]
                         if o == i and live and kind == 'cb':
                             recv[tgt].append(e)
+                            order.append(tgt)
                             if len(recv[tgt]) >= 2:
                                 res.nontrivial = True
                                 res.features.add('callable-received>=2')
@@ -164,6 +173,17 @@ class C15(InterpProp):
                         if o == i and live and kind == 'bind':
                             res.features.add('forwarded-to-interpreter' + ('-self' if tgt == i else ''))
                             res.nontrivial = True
+                got_order = ob['world'].get('deliveries')
+                if got_order is not None and got_order != order and r['outcome'] != 'error':
+                    it = iter(got_order)
+                    if len(got_order) > len(order) and all(x in it for x in order):
+                        res.violations.append('op %d: more calls of the bound callables %s than events sent to their bindings %s'
+                                              % (k, got_order, order))
+                    else:
+                        res.violations.append('op %d: the bound callables were called in the order %s; binding order gives %s'
+                                              % (k, got_order, order))
+                if len(set(order)) < len(order) and len(sent) == 1:
+                    res.features.add('callable-bound-twice')
                 for cbk, exp in recv.items():
                     got = ob['world']['callbacks'][cbk]
                     if got != exp:
@@ -179,5 +199,5 @@ class C15(InterpProp):
     def known_signature(self, finding, case, res):
         if finding.get('signature') == 'notify-event-sent':
             spoof = any("notify('event sent'" in (t.action or '') for sc in case.aux['charts'] for t in sc.transitions)
-            return spoof and all(v.startswith('op ') and (': callable ' in v or 'differ from those announced' in v) for v in res.violations)
+            return spoof and all(v.startswith('op ') and (': callable ' in v or 'differ from those announced' in v or ': more calls of the bound callables' in v) for v in res.violations)
         return False
